@@ -1613,7 +1613,7 @@ func TestVerif_C34(t *testing.T) {
 	r := verifrt.Start(t, "C34")
 	defer r.Finish()
 	r.ExitIfAbnormal()
-	r.SetRule("case = PRNG script for one HTTP/3 connection in a synctest bubble: fault profile of the datagram network (loss<=25%, dup<=15%, reorder<=30%, jitter, consecutive-drop cap, fault phase 0.2-120 virtual s then clean), QUIC buffer sizes per side, 1-N concurrent exchanges each with method/host/path/query, 0-30 header fields (multi-valued, empty, 16 KiB, obs-text), cookies, request body 0-1 MiB in PRNG chunks with declared/unknown/short/long Content-Length, request trailers, handler mode (read-then-write or duplex), status, response header set, late header mutation, response body in PRNG Writes with Flush pattern and declared/undeclared/short/long Content-Length, declared and TrailerPrefix trailers. One evaluation per exchange; non-trivial = exchange carrying body bytes in at least one direction on a connection whose network dropped, duplicated or held back at least one datagram; distinct by (method, kinds, body sizes, chunking, header counts, fault counters)")
+	r.SetRule("case = one HTTP/3 connection (real transport and server over real QUIC endpoints) in a synctest bubble. Stream 'exchange': PRNG fault profile of the datagram network (loss<=25%, dup<=15%, reorder<=30%, jitter, consecutive-drop cap, fault phase 0.2-120 virtual s then clean), QUIC buffer sizes per side, 1-N concurrent exchanges each with method/host/path/query, 0-30 header fields (multi-valued, empty, 16 KiB, obs-text), cookies, request body 0-1 MiB in PRNG chunks with declared/unknown/short/long Content-Length, request trailers, handler mode (read-then-write or duplex), status, response header set, header mutation after commit, response body in PRNG Writes with Flush pattern and declared/undeclared/short/long Content-Length, announced and TrailerPrefix trailers. Streams 'key-update-under-loss' and 'reset-retransmitted': the same exchanges under a scripted loss pattern (client datagrams with ack-eliciting packets lost around the first QUIC key update; server datagrams lost right after the client reset a request stream). Stream 'content-length-0-with-trailers': perfect network. One evaluation per exchange; non-trivial = exchange carrying body bytes in at least one direction on a connection whose network dropped, duplicated or held back at least one datagram; distinct by (method, kinds, body sizes, chunking, header counts, fault counters)")
 	r.Assume("fault decisions are a function of (seed, direction, datagram sequence number); goroutine scheduling inside the bubble is not replayed bit-exactly")
 	r.Assume("net/url, net/http.Header and http.DetectContentType (standard library) are trusted; the harness never decodes HTTP/3 or QPACK bytes")
 	r.Assume("a handler that writes more than its declared Content-Length is accepted in the documented net/http way: Write reports an error and exactly the declared bytes travel (or the client read fails)")
